@@ -192,6 +192,19 @@ def _ops(env: TEnv, kind: str, cls: str) -> Dict[str, Tuple[Callable[[ModObj], A
     def clear(t):
         it.method(t, "clear_buffers")
 
+    def link_(t):
+        # link to another transform of the same type holding other parameters: from now on its parameters are the ones in use
+        other = env.make(t.cls.module.name, cls, dict(getattr(env, "ctor_kw", {})), "buffer")
+        it.method(t, "link_", other)
+
+    def unlink_(t):
+        # unlink_() resets the parameters to None (documented): they must be set before the next use
+        shape = [1] + list(it.getattr(t, "data_shape"))
+        it.method(t, "unlink_")
+        # (given as a Parameter: torch types the slot 'params' once it has held a Parameter or a linked module; the plain-tensor
+        #  form is the separate obligation T6x.unlink-slot)
+        it.method(t, "data_", MM.make_parameter(env.sym(shape)))
+
     ops: Dict[str, Tuple[Callable, bool]] = {"update": (update, False), "call": (call, False), "disp": (disp, False),
                                               "clear_buffers": (clear, False), "condition_": (condition_, True)}
     if kind == "callable":
@@ -201,6 +214,8 @@ def _ops(env: TEnv, kind: str, cls: str) -> Dict[str, Tuple[Callable[[ModObj], A
     else:
         ops["data(p) copy"] = (data_copy, True)
         ops["grid(g) copy"] = (grid_copy, True)
+        ops["link_(other)"] = (link_, True)
+        ops["unlink_ + data_(p)"] = (unlink_, True)
     if kind != "callable":
         ops["grid_"] = (grid_, True)  # with callable parameters the callable itself must follow the new grid: out of scope here
         ops["data_"] = (data_, True)
@@ -238,7 +253,8 @@ def run_histories(ctx: Ctx, max_len: int = 2, only_classes=None, only_kinds=None
         configs = [c for c in configs if c[1] in only_classes]
     if only_kinds is not None:
         kinds = [k for k in kinds if k in only_kinds]
-    tasks = [(ctx, mod, cls, kw, kind, max_len) for mod, cls, kw in configs for kind in kinds]
+    PARTS = 3  # each (configuration, kind) is explored by three workers (every third history each)
+    tasks = [(ctx, mod, cls, kw, kind, max_len, part) for mod, cls, kw in configs for kind in kinds for part in range(PARTS)]
     import multiprocessing as mp
     global _TASKS
     _TASKS = tasks
@@ -247,7 +263,17 @@ def run_histories(ctx: Ctx, max_len: int = 2, only_classes=None, only_kinds=None
             results = pool.map(_history_worker, range(len(tasks)), chunksize=1)
     except (OSError, AssertionError):  # daemonic processes (mutant workers) cannot fork: run sequentially
         results = [_history_worker(i) for i in range(len(tasks))]
-    for (c, mod, cls, kw, kind, _), (n_seqs, example, bad_rep, bad_call, err) in zip(tasks, results):
+    merged: Dict[Tuple, List] = {}
+    for (c, mod, cls, kw, kind, _, part), (n_seqs, example, bad_rep, bad_call, err) in zip(tasks, results):
+        key = (mod, cls, tuple(sorted(kw.items())), kind)
+        if key not in merged:
+            merged[key] = [c, mod, cls, kw, kind, 0, example, [], [], ""]
+        m_ = merged[key]
+        m_[5] += n_seqs
+        m_[7] += bad_rep
+        m_[8] += bad_call
+        m_[9] = m_[9] or err
+    for (c, mod, cls, kw, kind, n_seqs, example, bad_rep, bad_call, err) in merged.values():
         if err:
             raise AnalysisError(f"T6x histories {cls}/{kind}: {err}")
         ci = prog.cls(mod, cls)
@@ -270,7 +296,7 @@ _TASKS: List[Any] = []
 
 
 def _history_worker(i: int):
-    ctx, mod, cls, kw, kind, max_len = _TASKS[i]
+    ctx, mod, cls, kw, kind, max_len, part = _TASKS[i]
     try:
         env = TEnv(ctx, 2)
         names = list(_ops(env, kind, cls))
@@ -278,6 +304,7 @@ def _history_worker(i: int):
         core = [n for n in names if n in ("update", "call", "disp", "clear_buffers", "condition_", "grid_", "data_", "inplace-edit", "reset_parameters")]
         seqs = [s for n in range(1, min(max_len, 2) + 1) for s in itertools.product(names, repeat=n)]
         seqs += [s for n in range(3, max_len + 1) for s in itertools.product(core, repeat=n)]
+        seqs = seqs[part::3]
         bad_call: List[str] = []
         bad_rep: List[str] = []
         first_only = getattr(ctx, "stop_when", None) is not None  # mutation self-test: one reported history is enough
@@ -285,6 +312,7 @@ def _history_worker(i: int):
             if first_only and (bad_call or bad_rep):
                 break
             env = TEnv(ctx, 2)
+            env.ctor_kw = kw
             it = env.it
             ops = _ops(env, kind, cls)
             try:
@@ -328,6 +356,34 @@ def run_regrid(ctx: Ctx, bspline: bool = True, dense: bool = True) -> None:
         _regrid_bspline(ctx)
     if dense:
         _regrid_dense(ctx)
+
+
+def run_unlink_slot(ctx: Ctx) -> None:
+    """After unlink_() the transform accepts new parameters given as a plain tensor (the documented argument type of data_)."""
+    prog = ctx.prog
+    ctx.rule("T6x.unlink-slot", "a transform that was linked and unlinked again (link_(other); unlink_()), or an optimisable transform after "
+                                "unlink_(), accepts data_(tensor) — the documented argument type — and then uses exactly those parameters")
+    mod, cls, kw = NONRIGID[0]
+    ci = prog.cls(mod, cls)
+    fU = prog.find_method(ci, "unlink_")
+    ctx.fn(fU)
+    for hist in ("link_(other) -> unlink_ -> data_(tensor)", "parameter: unlink_ -> data_(tensor)", "buffer: unlink_ -> data_(tensor)"):
+        def th(hist=hist):
+            env = TEnv(ctx, 2)
+            it = env.it
+            kind = "parameter" if hist.startswith("parameter") else "buffer"
+            t = env.make(mod, cls, kw, kind)
+            it.method(t, "update")
+            if hist.startswith("link_"):
+                it.method(t, "link_", env.make(mod, cls, kw, "buffer"))
+            it.method(t, "unlink_")
+            p = env.sym([1] + list(it.getattr(t, "data_shape")))
+            it.method(t, "data_", p.clone())
+            got = it.method(t, "tensor")
+            if not teq(got, fresh_tensor(it, t)) or not teq(it.method(t, "data"), p):
+                return False, "after unlink_() and data_(tensor) the transform does not use the given parameters"
+            return True, ""
+        _guard(ctx, "T6x.unlink-slot", hist, fU, f"history={hist}", th)
 
 
 def _regrid_bspline(ctx: Ctx) -> None:
